@@ -105,14 +105,15 @@ class PositionCodec:
         if _client_len == 0:
             return types.Position(position.line, 0)
 
-        _client_end_of_line = self.client_num_units(_line)
-        if position.character > _client_end_of_line:
-            position.character = _client_end_of_line - 1
+        # Clamp to the end of the line (not counting its terminator), without
+        # modifying the position object we were given.
+        _client_end_of_line = self.client_num_units(_line.rstrip("\r\n"))
+        character = min(position.character, _client_end_of_line)
 
         _client_index = 0
         utf32_index = 0
         while True:
-            _is_searching_queried_position = _client_index < position.character
+            _is_searching_queried_position = _client_index < character
             _is_before_end_of_line = utf32_index < _utf32_len
             _is_searching_for_position = (
                 _is_searching_queried_position and _is_before_end_of_line
